@@ -465,6 +465,20 @@ def runChain : List Op → Bufs → MStream → Option (MStream × Bufs)
       | none => none
       | some (s', b') => runChain ops b' s'
 
+/-- assumption check reported by the driver: every select of the chain got results that fit
+    the stream it was applied to (see `selOk`) -/
+def Op.selOkAt : Op → MStream → Bool
+  | .select rs, s => selOk 0 rs s
+  | _, _ => true
+
+def chainSelOk : List Op → Bufs → MStream → Bool
+  | [], _, _ => true
+  | op :: ops, b, s =>
+      op.selOkAt s &&
+      (match applyOp b op s with
+        | none => true
+        | some (s', b') => chainSelOk ops b' s')
+
 /-- `Transformer.__call__(stream, keep_marks=True)` -/
 def transformMarked (ops : List Op) (s : Stream) : Option (MStream × Bufs) :=
   runChain ops [] (markAll s)
